@@ -257,3 +257,70 @@ pub mod d {
         });
     }
 }
+
+// ---------------------------------------------------------------- (F) field completeness, (G) codec agreement, (A) swapped arguments
+pub mod fga {
+    use std::io::{Read, Write};
+
+    #[derive(Default, Clone, Copy)]
+    pub struct Entry {
+        pub len: usize,
+        pub bytes: u64,
+        pub on_disk_bytes: u64,
+    }
+
+    impl Entry {
+        pub fn new(len: usize, bytes: u64, on_disk_bytes: u64) -> Self {
+            Self { len, bytes, on_disk_bytes }
+        }
+    }
+
+    pub fn good_merge(a: &mut Entry, b: &Entry) {
+        a.len += b.len;
+        a.bytes += b.bytes;
+        a.on_disk_bytes += b.on_disk_bytes;
+    }
+
+    pub fn bad_merge(a: &mut Entry, b: &Entry) {
+        a.len += b.len;
+        a.bytes += b.bytes;
+    }
+
+    fn write_u64<W: Write>(w: &mut W, v: u64) -> std::io::Result<()> {
+        w.write_all(&v.to_le_bytes())
+    }
+    fn read_u64<R: Read>(r: &mut R) -> std::io::Result<u64> {
+        let mut b = [0u8; 8];
+        r.read_exact(&mut b)?;
+        Ok(u64::from_le_bytes(b))
+    }
+
+    pub fn encode<W: Write>(e: &Entry, w: &mut W) -> std::io::Result<()> {
+        write_u64(w, e.len as u64)?;
+        write_u64(w, e.bytes)?;
+        write_u64(w, e.on_disk_bytes)?;
+        Ok(())
+    }
+
+    pub fn good_decode<R: Read>(r: &mut R) -> std::io::Result<Entry> {
+        let len = read_u64(r)?;
+        let bytes = read_u64(r)?;
+        let on_disk_bytes = read_u64(r)?;
+        Ok(Entry::new(len as usize, bytes, on_disk_bytes))
+    }
+
+    pub fn bad_decode_swapped<R: Read>(r: &mut R) -> std::io::Result<Entry> {
+        let len = read_u64(r)?;
+        let on_disk_bytes = read_u64(r)?;
+        let bytes = read_u64(r)?;
+        Ok(Entry::new(len as usize, bytes, on_disk_bytes))
+    }
+
+    pub fn bad_call_swapped(len: usize, bytes: u64, on_disk_bytes: u64) -> Entry {
+        Entry::new(len, on_disk_bytes, bytes)
+    }
+
+    pub fn good_call(len: usize, bytes: u64, on_disk_bytes: u64) -> Entry {
+        Entry::new(len, bytes, on_disk_bytes)
+    }
+}
